@@ -3,7 +3,7 @@
 import copy
 from typing import Any, Callable
 
-from spec_classes.types import MISSING
+from spec_classes.types import MISSING, UNCHANGED
 from spec_classes.utils.method_builder import MethodBuilder
 from spec_classes.utils.mutation import mutate_value
 from spec_classes.utils.type_checking import type_label
@@ -32,6 +32,14 @@ class UpdateMethod(MethodDescriptor):
     ):
         if not _if:
             return self
+
+        # Attributes nominated with `MISSING` or `UNCHANGED` are left alone (and
+        # if nothing else is nominated there is nothing to copy either).
+        attrs = {
+            attr: value
+            for attr, value in attrs.items()
+            if value is not MISSING and value is not UNCHANGED
+        }
 
         return mutate_value(
             old_value=self,
